@@ -312,6 +312,27 @@ def unit_bounded_states(tier=None, seed=0):
                     break
             if problems:
                 break
+        # user training sets whose responses contain the "not rated" value -1 (the rating GUI exports it): the
+        # prediction of the averaging tree regressors still lies in [0, 10]
+        if not problems:
+            rng = np.random.default_rng(seed or 5)
+            # 40 look-alikes of the curve that is rated (so that they dominate its leaves), labelled -1
+            fc = np.array(nrater.IndentationRater.compute_features(mk("fitted"), which_type="continuous"), dtype=float)
+            look = np.nan_to_num(fc)[None, :] * (1 + 1e-3 * rng.standard_normal((40, fc.size)))
+            X2 = np.concatenate([X, look])
+            y2 = np.concatenate([y, -np.ones(40)])
+            for reg in ("Extra Trees", "Random Forest", "Decision Tree"):
+                ne += 1
+                case = {"state": "fitted", "regressor": reg, "training_set": "in-memory with 40 unrated (-1) samples",
+                        "names": None}
+                try:
+                    r = mk("fitted").rate_quality(regressor=reg, training_set=(X2, y2))
+                except BaseException as exc:
+                    problems.append({**case, "what": f"raised {exc!r}"[:160]})
+                    break
+                if not (0 <= r <= 10):
+                    problems.append({**case, "what": f"rating {r} outside [0, 10]"})
+                    break
     finally:
         shutil.rmtree(tmp, ignore_errors=True)
     res = UnitResult(unit="bounded.curve_states")
@@ -354,6 +375,10 @@ def units(tier):
                                 Unit("feature_predicates", FU.unit_predicates, prop="C09"),
                                 Unit("regressors_fixed_random_state", unit_regressors),
                                 Unit("bounded.curve_states", unit_bounded_states)]
+    # "equals what the standalone rater computes from the curve's features": the rater, the training-set loader and
+    # compute_features agree on the column order through get_feature_names (contract shared with C17)
+    from . import c17
+    us.append(Unit("get_feature_names", c17.unit_feature_names, prop="C09"))
     if tier == "thorough" and not os.environ.get("VF_NO_CANARIES") and str(REPO) == "/repo":
         us.append(Unit("selftest.canaries", unit_canaries))
     return us
